@@ -12,6 +12,8 @@ from scipy.sparse import coo_matrix, csc_matrix, csr_matrix
 
 from biom import Table
 
+from . import kernels  # noqa: F401  (installs interpreted kernels when a .pyx changed)
+
 SCALE = 64           # matrix values are k/64: exact in binary64 and as scaled integers in the model
 TYPES = [None, 'OTU table', 'Pathway table', 'Function table', 'Ortholog table', 'Gene table',
          'Metabolite table', 'Taxon table']
